@@ -291,16 +291,19 @@ def classify_seq(ops, i, fixed_offset):
 
 
 def classify_fault(ops, i, fixed_offset):
-    """fault-injection histories: an error-free answer that differs from the plain store"""
+    """fault-injection histories: an error-free answer that differs from the plain store because the read that
+    filled the cache entry (the nearest earlier same-key MISS on this handle) had failed mid-stream"""
     x = ops[i]
     j = i - 1
     while j >= 0:
         o = ops[j]
         if o["k"] in ("add", "remove") and o["h"] == x["h"]:
             return None
-        if o["k"] == "read" and o["h"] == x["h"] and same_key(o, x, fixed_offset) and o["memo"]["elems"] == x["memo"]["elems"]:
-            if any(e.get("fault") for e in o["fwd"]) and o["memo"]["err"] and x["memo"]["elems"]:
+        if o["k"] == "read" and o["h"] == x["h"] and same_key(o, x, fixed_offset) and o["fwd"]:
+            if any(e.get("fault") for e in o["fwd"]) and o["memo"]["err"] and x["memo"]["elems"] and \
+               o["memo"]["elems"] == x["memo"]["elems"]:
                 return "truncated_result_cached"
+            return None
         j -= 1
     return None
 
@@ -506,7 +509,7 @@ def run(ctx):
             if c["faults"]:
                 if o["memo"]["err"] and any(e.get("fault") for e in o["fwd"]):
                     continue   # the injected failure surfaced as an error: not a disagreement
-                cls = classify_fault(ops, i, fixed_offset) or classify_seq(ops, i, fixed_offset)
+                cls = classify_seq(ops, i, fixed_offset) or classify_fault(ops, i, fixed_offset)
             else:
                 cls = classify_seq(ops, i, fixed_offset)
             ndiff += 1
